@@ -128,4 +128,27 @@ theorem ceq_reachableR {cfg : Config} {p : Params} {h0 t0 : Int} (hc : CfgOK cfg
     · rw [h1]; exact exec_ceq s op (reachableR_invAll hc hr').inv hw ih
   | restart height time hr' hre _ => exact restart_ceq (reachableR_invAll hc hr') hre
 
+/-! ### contexts over a restart (C09) -/
+/-- the contexts of the restarted chain are exactly the contexts of the old chain, each reset (paused, batch completed,
+    counters of the batch zero) and otherwise unchanged -/
+theorem restart_ctxs {s s' : State} (hall : InvAll s) {height time : Int} (hre : restart s height time = some s')
+    (c : CtxId) : get s'.ctxs c = (get s.ctxs c).map resetCtx := by
+  obtain ⟨s'', h1, _, _, _, _, _, hexp⟩ := restart_invAll hall height time
+  rw [hre] at h1; injection h1 with h1; subst h1
+  have hesc : ∀ pv, (get s.earned pv).isSome → pv ≠ s.cfg.escrow := fun pv h e => hall.earn pv h (Or.inl e)
+  obtain ⟨_, b', hP, _⟩ := prep_spec hall.inv hesc
+  have hc : entries s'.ctxs = entries (prep s).s.ctxs := by
+    have := congrArg GenesisState.ctxs hexp; simpa [exportG] using this
+  have e1 : get s'.ctxs c = get (prep s).s.ctxs c := by rw [← get_entries, hc, get_entries]
+  rw [e1, hP]
+  show get (s.ctxs.map (fun e => (e.1, resetCtx e.2))) c = (get s.ctxs c).map resetCtx
+  generalize s.ctxs = m
+  induction m with
+  | nil => rfl
+  | cons hd t ih =>
+    obtain ⟨k, v⟩ := hd
+    by_cases hk : k = c
+    · subst hk; simp [Map.get]
+    · simp [Map.get, hk, ih]
+
 end SM
